@@ -1547,10 +1547,18 @@ func (d *DFA) checkEOIMatch(state *State) bool {
 		return false
 	}
 
-	// Create a temporary builder for EOI resolution
+	// The answer depends on the state only: compute it once per cached state. (A
+	// builder, two closures and their sets for every search that reaches the end of
+	// the input made IsMatch / FindIndices / Count allocate on every call.)
+	if state.eoiChecked {
+		return state.eoiMatch
+	}
+
 	// Use NewBuilderWithWordBoundary to avoid O(states) scan per call (Issue #105)
 	builder := NewBuilderWithWordBoundary(d.nfa, d.config, d.hasWordBoundary)
-	return builder.CheckEOIMatch(state.NFAStates(), state.IsFromWord())
+	state.eoiMatch = builder.CheckEOIMatch(state.NFAStates(), state.IsFromWord())
+	state.eoiChecked = true
+	return state.eoiMatch
 }
 
 // checkWordBoundaryMatch checks if resolving word boundary assertions with
